@@ -384,6 +384,77 @@ fn law_exceeds(st: &LawStats) -> Option<String> {
     }
 }
 
+/// J = 1: two streams that present the same set (items repeated, in another order) must give the estimate 1 exactly - the
+/// bound J(1-J)/m leaves no room.  All duplicate/reorder patterns of two items, for every pair (x, y) with x a *rounding
+/// witness* and y from a 64-item block.  Rounding witnesses: items whose single-item f32 sketch holds an exact integer >= 1,
+/// i.e. a value r + j that rounded up to j + 1 - the one place where a stored value and its integer level disagree.
+/// They are found by scanning 2^20 (2^22) items per size; the same number of ordinary items is used for the f64 sketcher.
+fn same_set_streams(ctx: &Ctx, base: u64) -> (u64, Vec<Value>) {
+    let n_scan: u64 = ctx.pick(1 << 20, 1 << 22);
+    let mut details = Vec::new();
+    let mut evals = 0u64;
+    let patterns: [&[usize]; 7] = [&[0, 0, 1], &[1, 0, 0], &[0, 1, 0], &[0, 0, 0, 1, 1], &[1, 1, 0], &[0, 1, 1, 0], &[1, 0]];
+    for (vname, f, scan) in [
+        ("SuperMinHash<f32,Fnv>", smh_f::<f32, FnvHasher> as fn(usize, &[u64]) -> Result<Vec<Vec<u64>>, String>, true),
+        ("SuperMinHash<f64,Fnv>", smh_f::<f64, FnvHasher>, false),
+        ("SuperMinHash2<u64,Fnv>", smh2_u64::<FnvHasher>, false),
+    ] {
+        for &m in &[4usize, 8, 12, 16, 32] {
+            let xs: Vec<u64> = if scan {
+                let mut w: Vec<u64> = (0..n_scan)
+                    .into_par_iter()
+                    .filter(|i| match f(m, &[base + i]) {
+                        Ok(v) => v[0].iter().any(|b| {
+                            let x = f64::from_bits(*b);
+                            x >= 1. && x.fract() == 0.
+                        }),
+                        Err(_) => true,
+                    })
+                    .map(|i| base + i)
+                    .collect();
+                evals += n_scan;
+                w.sort();
+                w.truncate(48);
+                w
+            } else {
+                (0..8u64).map(|i| base + 1000 * i).collect()
+            };
+            let ys: Vec<u64> = (0..64u64).map(|i| (base >> 1) + i).collect();
+            let bad: Option<String> = xs
+                .par_iter()
+                .find_map_any(|x| {
+                    for y in &ys {
+                        let it = [*x, *y];
+                        let reference = match f(m, &it) {
+                            Ok(v) => v,
+                            Err(e) => return Some(format!("sketch of {:?} failed: {}", it, e)),
+                        };
+                        for pat in patterns.iter() {
+                            let stream: Vec<u64> = pat.iter().map(|i| it[*i]).collect();
+                            match f(m, &stream) {
+                                Ok(v) => {
+                                    let eq = v[0].iter().zip(reference[0].iter()).filter(|(a, b)| a == b).count();
+                                    if eq != m {
+                                        return Some(format!("the streams {:?} and {:?} present the same set (J = 1) but only {} of {} sketch positions agree: estimate {}", it, stream, eq, m, eq as f64 / m as f64));
+                                    }
+                                }
+                                Err(e) => return Some(format!("sketch of {:?} failed: {}", stream, e)),
+                            }
+                        }
+                    }
+                    None
+                });
+            evals += (xs.len() * ys.len() * (patterns.len() + 1)) as u64;
+            if let Some(w) = bad {
+                ctx.violation(&format!("C03-same-set:{}", vname), &format!("{} m={}: {}", vname, m, w), json!({"kind": "same-set", "variant": vname, "m": m}));
+                break;
+            }
+            details.push(json!({"variant": vname, "m": m, "first_items": xs.len(), "rounding_witnesses": scan, "second_items": ys.len(), "stream_patterns": patterns.len()}));
+        }
+    }
+    (evals, details)
+}
+
 pub fn run(ctx: &Ctx) -> i32 {
     let base = splitmix64(ctx.seed ^ 0x1e77a) >> 20;
     let nblock = ctx.pick(10usize, 13);
@@ -420,6 +491,9 @@ pub fn run(ctx: &Ctx) -> i32 {
         }
         ldetails.push(json!({"m": m, "items": st.n, "chi2_dof": st.chi2, "worst_sqrtN_KS_fraction": st.worst_ks, "worst_sqrtN_spearman": st.worst_corr}));
     }
+    let (sevals, sdetails) = same_set_streams(ctx, base << 3);
+    evals += sevals;
+    println!("C03 same-set streams: {} configurations, rounding witnesses per f32 size: {:?}", sdetails.len(), sdetails.iter().filter(|d| d["rounding_witnesses"] == json!(true)).map(|d| d["first_items"].as_u64().unwrap_or(0)).collect::<Vec<_>>());
     let maxz = pdetails.iter().map(|d| d["z_mean"].as_f64().unwrap_or(0.).abs()).fold(0., f64::max);
     println!("C03 partition: {} configurations, max |z| = {:.2}; single-item law: {} items x 7 sizes", pdetails.len(), maxz, n_law);
     let coverage = json!({
@@ -435,12 +509,13 @@ pub fn run(ctx: &Ctx) -> i32 {
         "exhaustive_scope": "part (1) enumerates every labelling of every shape by the block (exact integer identity); parts (2),(3) enumerate finite blocks of the identifier space with a 6-sigma / confirm rule",
         "evaluations": totals.0 + evals,
         "distinct_nontrivial": totals.1,
-        "rule": "(1) for 9 sketcher variants (f32/f64 SuperMinHash, u32/u64 SuperMinHash2; Fnv, XxHash32 and no-op hashers; fresh instances and instances reused after reinit), m in {1,2,3,5,8,16,33}, every shape (|A\\B|,|B\\A|,|A∩B|) with union <=4 (5) and EVERY assignment of block identifiers (10 (13) ids, two blocks) to it: per position, collisions * u == triples * |A∩B| exactly (a broken identity is arbitrated on 2e5 fresh labellings before being reported); distinct = distinct subsets sketched; (2) 8 large / lopsided shapes x 7 variants on T disjoint labellings: |mean-J| <= 6 se and MSE <= J(1-J)/m + 6 se; (3) single-item sketches of 2^16 (2^19) items: integer parts a permutation (exact), orders equally frequent (chi2), fractions uniform (KS) and uncorrelated",
+        "rule": "(1) for 9 sketcher variants (f32/f64 SuperMinHash, u32/u64 SuperMinHash2; Fnv, XxHash32 and no-op hashers; fresh instances and instances reused after reinit), m in {1,2,3,5,8,16,33}, every shape (|A\\B|,|B\\A|,|A∩B|) with union <=4 (5) and EVERY assignment of block identifiers (10 (13) ids, two blocks) to it: per position, collisions * u == triples * |A∩B| exactly (a broken identity is arbitrated on 2e5 fresh labellings before being reported); distinct = distinct subsets sketched; (2) 8 large / lopsided shapes x 7 variants on T disjoint labellings: |mean-J| <= 6 se and MSE <= J(1-J)/m + 6 se; (3) single-item sketches of 2^16 (2^19) items: integer parts a permutation (exact), orders equally frequent (chi2), fractions uniform (KS) and uncorrelated; (4) J = 1: for m in {4,8,12,16,32}, every pair (x,y) with x one of up to 48 rounding witnesses found by scanning 2^20 (2^22) items (f32: a single-item value that rounded up to the next integer) or 8 ordinary items (f64, SuperMinHash2) and y from a 64-item block, 7 streams that repeat / reorder {x,y}: all positions equal to those of [x,y]",
         "identity": idetails,
         "identity_subset_triples": totals.0,
         "identity_comparisons": totals.2,
         "partition": pdetails,
         "single_item_law": ldetails,
+        "same_set_streams": sdetails,
     });
     ctx.finish(
         "model_checking",
